@@ -294,8 +294,13 @@ unsigned check(const Str &s, const Str &label)
         char *m = Format::QuoteMimeBlob(in);
         if (mRaw != m) V::failKey("direct:QuoteMimeBlob", "QuoteMimeBlob gives \"" + V::esc(m) + "\", assemble %[ gave \"" + V::esc(mRaw) + "\" for " + label);
         xfree(m);
+        // user names are logged by the built-in formats as a bare field: reversible like a mime blob, and no SP either
         char *un = Format::QuoteUrlEncodeUsername(in);
-        if (!un || mRaw != un) V::failKey("direct:QuoteUrlEncodeUsername", "QuoteUrlEncodeUsername differs from QuoteMimeBlob for " + label);
+        Str unBack;
+        if (!un || !unqMime(un, unBack, why) || unBack != s)
+            V::failKey("direct:QuoteUrlEncodeUsername:reverse", Str("QuoteUrlEncodeUsername gives \"") + V::esc(un ? un : "(null)") + "\" for " + label + ": not a reversible mime-blob encoding");
+        else if (strchr(un, ' '))
+            V::failKey("direct:QuoteUrlEncodeUsername:SP", Str("QuoteUrlEncodeUsername gives \"") + V::esc(un) + "\" for " + label + ": raw SP in a value that the built-in formats log as a bare field");
         xfree(un);
         if (uRaw != rfc1738_escape(in)) V::failKey("direct:rfc1738_escape", "rfc1738_escape differs from assemble %# for " + label);
         if (dRaw != rfc1738_escape_unescaped(in)) V::failKey("direct:rfc1738_escape_unescaped", "rfc1738_escape_unescaped differs from assemble default for " + label);
